@@ -247,5 +247,5 @@ Definition leg_spec (fn : Z) (i o : tree) : bool :=
   end.
 
 (* dispatch of the whole property: value level (C04/Spec.v) and package leg *)
-Definition run_all (fn : Z) (i : tree) : tree := if fn <? 20 then run fn i else leg_run fn i.
-Definition spec_all (fn : Z) (i o : tree) : bool := if fn <? 20 then spec fn i o else leg_spec fn i o.
+Definition run_all (fn : Z) (i : tree) : tree := if fn <? 20 then value_run fn i else leg_run fn i.
+Definition spec_all (fn : Z) (i o : tree) : bool := if fn <? 20 then value_spec fn i o else leg_spec fn i o.
